@@ -93,3 +93,16 @@ func HTTPPost(url, contentType string, body io.Reader) (*http.Response, error) {
 	}
 	return http.Post(url, contentType, body)
 }
+
+// TCPLike is what code that type-asserts a connection to *net.TCPConn goes on to use. *net.TCPConn
+// implements it, and so do simulated connections (seamgen rule tcpconn).
+type TCPLike interface {
+	net.Conn
+	SetLinger(sec int) error
+}
+
+// AsTCPConn replaces `c.(*net.TCPConn)` in rewritten sources.
+func AsTCPConn(c net.Conn) (TCPLike, bool) {
+	t, ok := c.(TCPLike)
+	return t, ok
+}
